@@ -308,6 +308,39 @@ func cloneEvs(evs []absEvent) []absEvent {
 func genC10(g *Rng, tier string, emit func(Op)) {
 	ka, kb := fixedKey("k1024a", true), fixedKey("k1024b", true)
 	keys := []*KeyPair{ka, kb}
+
+	// update messages as a holder's witness meets them (Witness.Update): a genuine signed accumulator
+	// with an altered event list must be refused wherever the witness stands - behind the window,
+	// inside it, or already at the accumulator's index (where there is nothing left to compute)
+	{
+		kp := ka
+		emit(declKey(kp))
+		emit(declSk(kp))
+		n := 4
+		b := newHistBuilder()
+		nu0 := randomQR(g, kp.pk.N)
+		for i := 0; i <= n; i++ {
+			b.witness(fmt.Sprintf("w%d", i), revPrime(g))
+			if i < n {
+				b.revoke(revPrime(g))
+			}
+		}
+		k := 0
+		for from := 1; from <= n; from++ {
+			for to := from; to <= n; to++ {
+				id := fmt.Sprintf("bad%d", k)
+				b.mkbadevents(id, from, to, k)
+				k++
+				for wi := 0; wi <= n; wi++ {
+					tmp := fmt.Sprintf("t%d_%d", k, wi)
+					b.clone(fmt.Sprintf("w%d", wi), tmp)
+					b.apply(tmp, id)
+					b.verifyw(tmp)
+				}
+			}
+		}
+		emit(b.op(kp, nu0, "witness-meets-altered-events"))
+	}
 	maxLen, ndouble := 4, 30
 	if tier == "thorough" {
 		maxLen, ndouble = 8, 600
